@@ -23,7 +23,7 @@ func (m *c13Model) actionChain(t *c13Term, depth int) (seq [][2]int, bad string)
 		in := x.loopVar(c13OpLoopIn, t.loop, t.obj)
 		for _, it := range t.loop.iters {
 			o := it.out[t.obj]
-			if o == nil || !(o.key == in.key || (o.op == c13OpApp && o.args[0].key == in.key)) {
+			if o == nil || !(o.key == in.key || (o.op == c13OpApp && (o.args[0].key == in.key || m.lazyBase(it.st, o.args[0], in)))) {
 				return nil, fmt.Sprintf("an iteration of the loop over change.%s.%s turns the action list into `%s` instead of appending to it", c13Secs[el.sec].Field, c13Kinds[el.kind].Elems, m.show(o))
 			}
 		}
@@ -56,4 +56,32 @@ func (m *c13Model) actionChain(t *c13Term, depth int) (seq [][2]int, bad string)
 		return nil, fmt.Sprintf("the action list starts as `%s`, which is not empty", m.show(t))
 	}
 	return nil, fmt.Sprintf("the action list starts from `%s`, not from an empty list", m.show(t))
+}
+
+// emptyList reports whether t is an empty action list (nil, an empty literal, make with length 0).
+func c13EmptyList(t *c13Term) bool {
+	switch {
+	case t.op == c13OpNil, t.op == c13OpLit && t.keys == nil && len(t.args) == 0:
+		return true
+	case t.op == c13OpMake && len(t.args) >= 1:
+		n, ok := c13IntOf(t.args[0])
+		return ok && n == 0
+	}
+	return false
+}
+
+// lazyBase recognises a lazily allocated list: the path appends to a fresh empty list `base` on a path on which the
+// carried list `in` is known to be nil or empty, which is appending to `in`.
+func (m *c13Model) lazyBase(st *c13State, base, in *c13Term) bool {
+	if !c13EmptyList(base) {
+		return false
+	}
+	x := m.x
+	if v, ok := st.pcIdx[x.eq(in, c13NilTerm).key]; ok && v {
+		return true
+	}
+	if v, ok := st.pcIdx[x.eq(x.un(c13OpLen, in), c13Int(0)).key]; ok && v {
+		return true
+	}
+	return false
 }
